@@ -189,6 +189,40 @@ class VFile:
         return "".join(self.lines).splitlines(True)
 
 
+ACTIVE = None      # the interpreter of the path being explored (set when an Interp is created)
+_MISSING = object()
+
+
+def ga(obj, name, default=_MISSING):
+    """Read attribute `name` of an interpreted object the way the analysed program would (properties, class attributes)."""
+    it = ACTIVE
+    if it is None or not isinstance(obj, (Obj, Arr, ClassRef)):
+        if isinstance(obj, Obj) and name in obj.fields:
+            return obj.fields[name]
+        if default is not _MISSING:
+            return default
+        raise AnalysisError("harness: no attribute %s on %r" % (name, obj))
+    try:
+        return it.ev_Attribute(ast.Attribute(value=_Lit(obj), attr=name, ctx=ast.Load(), lineno=0), {})
+    except PathRaise as e:
+        if default is not _MISSING and "AttributeError" in str(e.exc):
+            return default
+        raise
+    except Unsupported:
+        if default is not _MISSING:
+            return default
+        raise
+
+
+def sa(obj, name, value):
+    """Assign attribute `name` of an interpreted object the way the analysed program would (property setters run)."""
+    it = ACTIVE
+    if it is None:
+        obj.fields[name] = value
+        return
+    it.assign(ast.Attribute(value=_Lit(obj), attr=name, ctx=ast.Store(), lineno=0), value, {})
+
+
 def _deco_leaf(d):
     if isinstance(d, ast.Call):
         return _deco_leaf(d.func)
@@ -295,6 +329,8 @@ class Interp:
     MAX_DEPTH = 60
 
     def __init__(self, pkg, script=None, hook=None):
+        global ACTIVE
+        ACTIVE = self
         self.pkg = pkg
         self.script = list(script or [])
         self.pos = 0
@@ -944,9 +980,50 @@ class Interp:
             if not isinstance(new, Arr) or new.shape != cur.shape:
                 raise self.unsupported("in-place op changes shape", st)
             cur.data[:] = new.data
+            self.after_write(cur)
             return
         new = self.arith(op, cur, val, st)
         self.assign(t, new, env)
+
+    def make_view(self, view, owner, cells):
+        """`view` shares storage with `owner`: element k (row-major) of the view is owner cell cells[k]."""
+        view.is_view = True
+        view.view_of = (owner, cells)
+        if not hasattr(owner, "views"):
+            owner.views = []
+        owner.views.append(view)
+
+    @staticmethod
+    def _cells_get(arr, cell):
+        return arr.data[cell[0]] if len(cell) == 1 else arr.data[cell[0]][cell[1]]
+
+    @staticmethod
+    def _cells_set(arr, cell, x):
+        if len(cell) == 1:
+            arr.data[cell[0]] = x
+        else:
+            arr.data[cell[0]][cell[1]] = x
+
+    def after_write(self, arr, _from=None):
+        """Propagate an in-place modification of `arr` to the array it is a view of and to the views taken of it."""
+        vo = getattr(arr, "view_of", None)
+        if vo is not None and vo[0] is not _from:
+            owner, cells = vo
+            for cell, x in zip(cells, arr.flat()):
+                self._cells_set(owner, cell, x)
+            self.after_write(owner, _from=arr)
+        for v in getattr(arr, "views", []) or []:
+            if v is _from:
+                continue
+            owner, cells = v.view_of
+            vals = [self._cells_get(arr, c) for c in cells]
+            if v.ndim == 1:
+                v.data[:] = vals
+            else:
+                w = len(v.data[0]) if v.data else 0
+                for r_ in range(len(v.data)):
+                    v.data[r_][:] = vals[r_ * w:(r_ + 1) * w]
+            self.after_write(v, _from=arr)
 
     def store(self, base, sl, v, env, node):
         if isinstance(base, dict):
@@ -967,8 +1044,18 @@ class Interp:
                 raise PathRaise("ValueError(could not broadcast)", self.where(node))
             base.data[:] = [list(r) for r in new.data] if base.ndim == 2 else list(new.data)
             return
-        if getattr(base, "is_view", False):
-            raise self.unsupported("store through a slice view", node)
+        if getattr(base, "view_of", None) is not None or getattr(base, "views", None):
+            base_views_sync = True
+        else:
+            base_views_sync = False
+        if base_views_sync and not getattr(self, "_in_view_store", False):
+            self._in_view_store = True
+            try:
+                self.store(base, sl, v, env, node)
+            finally:
+                self._in_view_store = False
+            self.after_write(base)
+            return
         if getattr(base, "t_of", None) is not None:
             # store through a transposed view: perform it on the transposed copy, then write the result back to the owner
             owner = base.t_of
@@ -1653,7 +1740,7 @@ class Interp:
         if v.ndim == 1:
             if isinstance(idx, slice):
                 r = Pose(v.cls, v.data[idx]) if isinstance(v, Pose) else Arr(v.data[idx], 1)
-                r.is_view = True
+                self.make_view(r, v, [(i,) for i in range(len(v.data))[idx]])
                 return r
             if isinstance(idx, int):
                 if not -len(v.data) <= idx < len(v.data):
@@ -1665,11 +1752,13 @@ class Interp:
             if not -len(v.data) <= idx < len(v.data):
                 raise PathRaise("IndexError", self.where(node))
             r = Arr(list(v.data[idx]), 1)
-            r.is_view = True
+            ncols_ = len(v.data[idx])
+            self.make_view(r, v, [(idx % len(v.data), c) for c in range(ncols_)])
             return r
         if isinstance(idx, slice):
             r = Arr([list(x) for x in v.data[idx]], 2)
-            r.is_view = True
+            ncols_ = len(v.data[0]) if v.data else 0
+            self.make_view(r, v, [(r_, c) for r_ in range(len(v.data))[idx] for c in range(ncols_)])
             return r
         if isinstance(idx, tuple) and len(idx) == 2:
             ri, ci = idx
@@ -1684,7 +1773,10 @@ class Interp:
                     r = Arr([row[ci] for row in v.data[ri]], 2)
             except IndexError:
                 raise PathRaise("IndexError", self.where(node))
-            r.is_view = True
+            nrows_, ncols_ = len(v.data), (len(v.data[0]) if v.data else 0)
+            rows_ = [ri % nrows_] if isinstance(ri, int) else list(range(nrows_))[ri]
+            cols_ = [ci % ncols_] if isinstance(ci, int) else list(range(ncols_))[ci]
+            self.make_view(r, v, [(r_, c_) for r_ in rows_ for c_ in cols_])
             return r
         raise self.unsupported("index %r into 2-D array" % (idx,), node)
 
@@ -2168,6 +2260,7 @@ class Interp:
                     r[:] = [x] * len(r)
             else:
                 v.data[:] = [x] * len(v.data)
+            self.after_write(v)
             return None
         if name == "any":
             return any(self.truth(x, n) for x in v.flat())
